@@ -9,7 +9,8 @@ independently written Go interpreter over the REAL rule text, stream `sem`).
 * iptables-restore --noflush into an empty table: `-A` appends to its chain, `-I chain n` inserts
   at position n (1-based), in input order (`chainOf`).
 * A packet at a hook traverses the tables raw, mangle, nat in that order; the nat table is only
-  consulted for the first packet of a connection (conntrack state NEW), and only once per kind of
+  consulted for the packet that creates a connection's NAT binding (conntrack state NEW, or RELATED: the
+  first packet of an expected connection), and only once per kind of
   address manipulation: a locally generated connection receives its destination-NAT binding (a REDIRECT
   or the null binding) at nat/OUTPUT, so when its packet comes back in through `lo`, nat/PREROUTING is
   NOT consulted again (`natConsulted`; every packet arriving on `lo` was locally generated). mangle and
@@ -176,7 +177,16 @@ def Rule.hookValid (r : Rule) : Bool :=
    | .redirect _ _ => r.table == .nat
    | _ => true)
 
+/-- Words of the restore line of a rule. -/
+def Rule.tokens (r : Rule) : Nat :=
+  (match r.op with | .append => 2 | .insert _ => 3) + (r.conds.flatMap Match.params).length + r.target.params.length
+
+/-- iptables-restore holds at most 254 arguments per line (`MAX_ARGC` 255, "Parser cannot handle more
+    arguments"), three of which it supplies itself (program name, `-t`, table): 251 words are left. -/
+def maxLineTokens : Nat := 251
+
 def wellFormed (f : Fam) (rules : List Rule) : Bool :=
+  rules.all (fun r => r.tokens ≤ maxLineTokens) &&
   rules.all Rule.hookValid &&
   -- every -I position exists when the command is executed
   (Table.all.all fun t => Chain.all.all fun ch =>
@@ -213,7 +223,10 @@ structure Fate where
 
 /-- Is the nat table consulted for this packet at this hook? -/
 def natConsulted (h : Hook) (ct : CtState) (inIf : String) : Bool :=
-  ct == .new && !(h == .prerouting && inIf == "lo")
+  -- the packet that sets up the NAT binding of a connection: conntrack NEW, or RELATED - the first
+  -- packet of an expected connection (nf_nat_inet_fn falls through from IP_CT_RELATED to IP_CT_NEW);
+  -- a packet of state RELATED stands for that first packet here
+  (ct == .new || ct == .related) && !(h == .prerouting && inIf == "lo")
 
 def stepTable (d : Nat) (rules : List Rule) (h : Hook) (f : Fate) (t : Table) : Fate :=
   if f.dropped || f.loop then f
